@@ -157,7 +157,45 @@ def main() -> int:
                 master.merge(json.load(fh))
             os.remove(out)
             os.remove(log.name)
+    _ambient_stage(mod, prop, args.seed, master, work)
     return finish(master)
+
+
+def _ambient_stage(mod, prop, seed, master, work):
+    """Thorough tier: the repository's own tests that touch the anchored modules, under the ambient monitors."""
+    tests = getattr(mod, "AMBIENT_TESTS", None)
+    if not tests:
+        return
+    src = os.environ.get("RV_REPO_SRC") or "/repo/src"
+    tree = os.path.dirname(os.path.abspath(src))
+    paths = [t for t in tests if os.path.exists(os.path.join(tree, t))]
+    if not paths:
+        master.note("ambient_pytest_stage_skipped:no_tests_dir")
+        return
+    out = os.path.join(work, f"ambient-{seed}.json")
+    if os.path.exists(out):
+        os.remove(out)
+    env = dict(os.environ, RV_AMBIENT_PROP=prop, RV_AMBIENT_OUT=out, VERIF_SEED=str(seed), PYTHONHASHSEED="0", PYTHONDONTWRITEBYTECODE="1",
+               PYTHONPATH=os.pathsep.join([src, ROOT]))
+    cmd = [sys.executable, "-m", "pytest", "-q", "-p", "no:cacheprovider", "-p", "rv.pytest_plugin", "--timeout=900", "-x", "--no-header", "-W", "ignore", *paths]
+    cmd.remove("-x")
+    try:
+        subprocess.run(cmd, cwd=tree, env=env, capture_output=True, text=True, timeout=1200)
+    except subprocess.TimeoutExpired:
+        master.inconclusive_because("ambient_pytest_watchdog")
+        return
+    if not os.path.exists(out):
+        master.note("ambient_pytest_stage_produced_no_dump")
+        return
+    with open(out) as fh:
+        d = json.load(fh)
+    d["evaluations"] = 0
+    d["digests"] = []
+    d["samples"] = []
+    d["classes"] = {}
+    d["must_reach"], d["must_monitors"] = [], []
+    master.merge(d)
+    os.remove(out)
 
 
 if __name__ == "__main__":
